@@ -1450,8 +1450,12 @@ func (t *tScreen) parseSgrMouse(buf *bytes.Buffer, evs *[]Event) (bool, bool) {
 			if state != 3 && state != 4 && state != 5 {
 				return false, false
 			}
-			val *= 10
-			val += int(b[i] - '0')
+			// (a value this large is far beyond any screen and is
+			// clipped anyway: stop before the product can overflow)
+			if val < 1<<30 {
+				val *= 10
+				val += int(b[i] - '0')
+			}
 			dig = true // stay in state
 
 		case ';':
